@@ -105,14 +105,14 @@ func (c *Collection) VerifSide(vector []float64, normal []float64, b float64) (f
 
 func (c *Collection) VerifDistance(a, b []float64) float64 { return c.distance(a, b) }
 
-func VerifEuclidean(a, b []float64) float64 { return euclideanDistance(a, b) }
-func VerifAngular(a, b []float64) float64   { return angularDistance(a, b) }
+func VerifEuclidean(a, b []float64) float64      { return euclideanDistance(a, b) }
+func VerifAngular(a, b []float64) float64        { return angularDistance(a, b) }
 func VerifQuantize(v float64, bits int) uint64   { return quantize(v, bits) }
 func VerifDequantize(v uint64, bits int) float64 { return dequantize(v, bits) }
 func VerifEncodeVector(v []float64, q int) []byte {
 	return encodeDocument(&Document{Vector: v}, q)
 }
-func VerifDecodeVector(data []byte, dims, q int) []float64 { return decodeVector(data, dims, q) }
+func VerifDecodeVector(data []byte, dims, q int) []float64  { return decodeVector(data, dims, q) }
 func VerifGetVectorSize(q, dims int) int                    { return getVectorSize(q, dims) }
 func VerifWrite7Code(n uint64) []byte                       { return write7Code(nil, n) }
 func VerifLengthOf7Code(n uint64) uint64                    { return lengthOf7Code(n) }
